@@ -138,8 +138,8 @@ type Call struct {
 // committed the block and filter headers of the new branch the Post rounds ask
 // for filters on it.
 type ReorgPhase struct {
-	After    int    // executed after this round of Plan.Rounds (and after the restart tied to it)
-	Grow     int    // fresh blocks first (their filters cannot be cached yet)
+	After    int // executed after this round of Plan.Rounds (and after the restart tied to it)
+	Grow     int // fresh blocks first (their filters cannot be cached yet)
 	Pre      []Round
 	Depth    int    // blocks of the best chain that get replaced
 	Extra    int    // the new branch has Depth+Extra blocks, more if that is not yet heavier
